@@ -199,10 +199,36 @@ Definition internal_validate (allow_self : bool) (cfg : config) (e : env) (recip
 
 Definition opt_str (s : string) : option string := if String.eqb s "" then None else Some s.
 
+(* ---------- post-dispatch hooks that charge for gas ----------
+   A Hyperlane post-dispatch hook may charge the SENDER of the remote transfer - an interchain gas
+   paymaster (x/core/02_post_dispatch: PayForGas) takes its quote, in the paymaster's own denomination,
+   from the sender's account.  The sender is the orbiter module account.  Which hooks exist and what they
+   quote is chain state outside the orbiter module (anybody may create a paymaster and name it as the
+   custom hook of a forwarding): [gas_fn] maps (custom hook, destination domain, gas limit) to the account
+   credited, the denomination and the amount quoted; [None]: the hook charges nothing. *)
+Definition gas_fn := option string -> Z -> Z -> option (string * string * Z).
+Definition no_gas : gas_fn := fun _ _ _ => None.
+
+(* PayForGas / DispatchMessage on the max fee: one is required; a quote above it is refused - but sdk.Coins
+   compares within one denomination only, so a max fee in another denomination bounds nothing; a zero or
+   negative quote is refused *)
+Definition gas_ok (fee_denom : string) (fee_amt : Z) (gd : string) (q : Z) : bool :=
+  negb (fee_amt =? 0) && negb (String.eqb gd fee_denom && (fee_amt <? q)) && (0 <? q).
+
+(* the remote transfer through a charging hook: the Warp module locks the collateral, then the hook takes
+   its quote from what the orbiter account holds in the paymaster's denomination - whatever its origin *)
+Definition hyp_transfer_charged (cfg : config) (c : call) (d : string) (amt : Z)
+           (payee gd : string) (q : Z) (fee_denom : string) (fee_amt : Z) : M unit := fun s =>
+  let '(v, s1) := ext c s in
+  let s2 := do_move (MSend (cfg_orbiter cfg) (cfg_warp cfg) d amt) s1 in
+  if v && gas_ok fee_denom fee_amt gd q && (q <=? bal (ps_l s2) (cfg_orbiter cfg) gd)
+  then POk tt (do_move (MSend (cfg_orbiter cfg) payee gd q) s2)
+  else PErr "hyperlane: remote transfer failed" s1.
+
 (* controller/forwarding/{cctp,hyperlane,internal}.go HandlePacket.
    [hyp_log_first]: the pinned commit converted the recipient to a 32-byte array for a debug log
    BEFORE validating its length (panic when shorter). *)
-Definition forward_ctrl_with (allow_self hyp_log_first : bool) (cfg : config) (e : env)
+Definition forward_ctrl_with (allow_self hyp_log_first : bool) (g : gas_fn) (cfg : config) (e : env)
            (pid : Z) (a : attrs) (t : tattr) : M unit :=
   let orb := cfg_orbiter cfg in
   if pid =? protocol_cctp then
@@ -229,10 +255,15 @@ Definition forward_ctrl_with (allow_self hyp_log_first : bool) (cfg : config) (e
               if negb (String.eqb origin (t_ddenom t)) then mfail "hyperlane: invalid forwarding token"
               else if hyp_log_first && fee_coin_bad fee_denom fee_amt
               then mpanic "warp: sdk.NewCoins on an invalid max fee"
-              else ext_moving (CHypTransfer (cfg_orbiter_bech cfg) token domain recipient (t_damt t) (opt_str hook)
-                                            gas fee_denom fee_amt metadata)
-                              [MSend orb (cfg_warp cfg) (t_ddenom t) (t_damt t)]
-                              "hyperlane: remote transfer failed"
+              else
+                let c := CHypTransfer (cfg_orbiter_bech cfg) token domain recipient (t_damt t) (opt_str hook)
+                                      gas fee_denom fee_amt metadata in
+                match g (opt_str hook) domain gas with
+                | None => ext_moving c [MSend orb (cfg_warp cfg) (t_ddenom t) (t_damt t)]
+                                     "hyperlane: remote transfer failed"
+                | Some (payee, gd, q) =>
+                    hyp_transfer_charged cfg c (t_ddenom t) (t_damt t) payee gd q fee_denom fee_amt
+                end
           end
     | _ => mfail "hyperlane: attributes are not Hyperlane attributes"
     end
@@ -246,7 +277,7 @@ Definition forward_ctrl_with (allow_self hyp_log_first : bool) (cfg : config) (e
     | _ => mfail "internal: attributes are not internal attributes"
     end
   else mfail "no forwarding controller implementation".
-Definition forward_ctrl := forward_ctrl_with false false.
+Definition forward_ctrl := forward_ctrl_with false false no_gas.
 
 (* keeper/component/forwarder HandlePacket *)
 Definition run_forwarding_with (fctrl : config -> env -> Z -> attrs -> tattr -> M unit) (cfg : config) (e : env) (lie : Z)
@@ -361,13 +392,18 @@ Record variant := {
   v_allow_self : bool;
   v_hyp_log_first : bool;
   v_stats_strict : bool;
+  v_gas : gas_fn;                 (* not a switch of the code: the gas-charging hooks of the chain (no_gas: none) *)
 }.
 Definition repaired : variant :=
   {| v_receiver_by_text := false; v_newcoin_panics := false; v_nil_action := Err "action is not set";
-     v_fee_overflow := Err "fee: total overflow"; v_allow_self := false; v_hyp_log_first := false; v_stats_strict := true |}.
+     v_fee_overflow := Err "fee: total overflow"; v_allow_self := false; v_hyp_log_first := false; v_stats_strict := true; v_gas := no_gas |}.
 Definition pinned : variant :=
   {| v_receiver_by_text := true; v_newcoin_panics := true; v_nil_action := Panic "Payload.Validate: nil action dereferenced";
-     v_fee_overflow := Panic "fee: Total.Add integer overflow"; v_allow_self := true; v_hyp_log_first := true; v_stats_strict := false |}.
+     v_fee_overflow := Panic "fee: Total.Add integer overflow"; v_allow_self := true; v_hyp_log_first := true; v_stats_strict := false; v_gas := no_gas |}.
+Definition with_gas (vr : variant) (g : gas_fn) : variant :=
+  {| v_receiver_by_text := v_receiver_by_text vr; v_newcoin_panics := v_newcoin_panics vr; v_nil_action := v_nil_action vr;
+     v_fee_overflow := v_fee_overflow vr; v_allow_self := v_allow_self vr; v_hyp_log_first := v_hyp_log_first vr;
+     v_stats_strict := v_stats_strict vr; v_gas := g |}.
 
 (* is the packet addressed to the orbiter? (controller/adapter/ibc.go ParsePacket) *)
 Definition is_orbiter_receiver (vr : variant) (cfg : config) (e : env) (receiver : string) : bool :=
@@ -437,7 +473,7 @@ Definition recv_body (vr : variant) (cfg : config) (acts : Z -> option action_ct
           "ics20" ;;
    (* 7. dispatch *)
    t' <- dispatch_actions acts (fun a => smem cmp_z a (paused_actions o)) (p_pre pl) t ;;
-   _ <- run_forwarding_with (forward_ctrl_with (v_allow_self vr) (v_hyp_log_first vr)) cfg e lie
+   _ <- run_forwarding_with (forward_ctrl_with (v_allow_self vr) (v_hyp_log_first vr) (v_gas vr)) cfg e lie
           (fun pid => smem cmp_z pid (paused_protos o))
           (fun pid cp => smem cmp_cc (pid, cp) (paused_cc o)) (Some f) t' ;;
    mret t'.
@@ -511,6 +547,23 @@ Definition recv_with (vr : variant) (cfg : config) (acts : Z -> option action_ct
    orbiter account is off by [lie]; 0 in every theorem about the real chain. *)
 Definition recv_lie cfg e := recv_with repaired cfg (chain_actions cfg e) e.
 Definition recv cfg e w p tape := recv_lie cfg e w p tape 0.
+(* the same on a chain some of whose post-dispatch hooks charge for gas *)
+Definition attrs_gas_free (g : gas_fn) (a : attrs) : bool :=
+  match a with
+  | AHyp _ domain _ hook _ gas _ _ => match g (opt_str hook) domain gas with None => true | Some _ => false end
+  | _ => true
+  end.
+(* the packet's forwarding does not go through a hook that charges *)
+Definition pkt_gas_free (g : gas_fn) (p : packet) : bool :=
+  match pk_data p with
+  | PIcs _ _ _ _ (Ok pl) =>
+      match p_fwd pl with
+      | Some f => match f_attrs f with Some a => attrs_gas_free g a | None => true end
+      | None => true
+      end
+  | _ => true
+  end.
+Definition recv_gas (g : gas_fn) cfg e := recv_with (with_gas repaired g) cfg (chain_actions cfg e) e.
 Definition recv_pinned cfg e w p tape :=
   recv_with pinned cfg (fun id => if existsb (Z.eqb id) (cfg_action_routes cfg) && (id =? action_fee)
                                   then Some (fee_ctrl_with (v_fee_overflow pinned) cfg e) else None) e w p tape 0.
